@@ -106,6 +106,67 @@ theorem C20_pack32_roundtrip (p : Nat) (vs : List Nat) (hv : ∀ v ∈ vs, v < 2
 theorem C20_vole_empty (prg : BitVec 128 → Nat) (labels : List (BitVec 128)) (p : Nat) :
     session prg labels [] [] p = .ok ⟨[], [], [], []⟩ := rfl
 
+/-- One call in any state: an admissible call (empty vectors included)
+succeeds whatever the position, satisfies the share relation, and moves the
+position by its length rounded up to a multiple of 8. -/
+theorem C20_vole_step (prg : BitVec 128 → Nat) (cot : Nat → BitVec 128) (st : St) (c : Call)
+    (h : c.Ok) :
+    ∃ s, mulStep prg cot st c = .ok (⟨st.pos + roundUp8 c.xs.length⟩, s) ∧ ShareRel c s := by
+  obtain ⟨hp0, hp, hly, hy⟩ := h
+  by_cases hm : c.xs.length = 0
+  · have hx : c.xs = [] := List.eq_nil_of_length_eq_zero hm
+    have hys : c.ys = [] := List.eq_nil_of_length_eq_zero (by omega)
+    refine ⟨⟨[], [], [], []⟩, ?_, ?_⟩
+    · simp [mulStep, session, hx, hys]
+    · refine ⟨by simp [hx], by simp [hx], ?_⟩
+      intro i hi; omega
+  · obtain ⟨s, hs, h1, h2, h3⟩ := C20_vole_relation prg (callLabels cot st.pos c.xs.length) c.xs c.ys c.p
+      hp0 hp (by omega) hly (callLabels_length _ _ _) hy
+    exact ⟨s, by simp [mulStep, hs], h1, h2, h3⟩
+
+/-- Histories.  For every PRG, every row stream of the extension, every
+starting position and every list of admissible `Mul` calls on ONE
+Sender/Receiver pair (any lengths in any order — shorter after longer —, any
+moduli in any order, any elements): no call takes an error branch, EVERY call
+of the history satisfies the share relation, and the state after the history
+is the start position plus the rounded-up lengths.  The state type `St` holds
+the position and nothing else: a call's outcome cannot depend on the inputs
+or outputs of earlier calls. -/
+theorem C20_vole_session (prg : BitVec 128 → Nat) (cot : Nat → BitVec 128) (st : St)
+    (calls : List Call) (h : ∀ c ∈ calls, c.Ok) :
+    ∃ ss, runCalls prg cot st calls =
+        .ok (⟨st.pos + (calls.map fun c => roundUp8 c.xs.length).sum⟩, ss) ∧
+      Forall2 ShareRel calls ss :=
+  runCalls_of_step prg cot ShareRel (fun st c hc => C20_vole_step prg cot st c hc) calls st h
+
+/-- The same, call by call: the `k`-th result of the history belongs to the
+`k`-th call and satisfies its share relation. -/
+theorem C20_vole_session_every_call (prg : BitVec 128 → Nat) (cot : Nat → BitVec 128) (st : St)
+    (calls : List Call) (h : ∀ c ∈ calls, c.Ok) :
+    ∃ st' ss, runCalls prg cot st calls = .ok (st', ss) ∧ ss.length = calls.length ∧
+      ∀ (k : Nat) (c : Call) (s : Session), calls[k]? = some c → ss[k]? = some s → ShareRel c s := by
+  obtain ⟨ss, hs, hr⟩ := C20_vole_session prg cot st calls h
+  exact ⟨_, ss, hs, hr.length_eq.symm, hr.get⟩
+
+/-- The messages of every call of a history are the packed vectors of THAT
+call only (`pack32` of its `ys` resp. of its `us`): nothing of an earlier call
+is in them. -/
+theorem C20_vole_session_messages (prg : BitVec 128 → Nat) (cot : Nat → BitVec 128) (st : St)
+    (calls : List Call) (h : ∀ c ∈ calls, c.Ok) :
+    ∃ st' ss, runCalls prg cot st calls = .ok (st', ss) ∧
+      Forall2 (fun c s => pack32 c.ys = some s.ymsg ∧ pack32 s.us = some s.umsg) calls ss := by
+  obtain ⟨ss, hs, hr⟩ := runCalls_of_step prg cot
+    (fun c s => pack32 c.ys = some s.ymsg ∧ pack32 s.us = some s.umsg) (fun st c hc => by
+      obtain ⟨hp0, hp, hly, hy⟩ := hc
+      by_cases hm : c.xs.length = 0
+      · have hx : c.xs = [] := List.eq_nil_of_length_eq_zero hm
+        have hys : c.ys = [] := List.eq_nil_of_length_eq_zero (by omega)
+        exact ⟨⟨[], [], [], []⟩, by simp [mulStep, session, hx, hys], by simp [hys, pack32], by simp [pack32]⟩
+      · obtain ⟨s, hs, h1, h2, _⟩ := C20_vole_messages prg (callLabels cot st.pos c.xs.length) c.xs c.ys c.p
+          hp0 hp (by omega) hly (callLabels_length _ _ _) hy
+        exact ⟨s, by simp [mulStep, hs], h1, h2⟩) calls st h
+  exact ⟨_, ss, hs, hr⟩
+
 /-! Non-vacuity: hypotheses are satisfiable, and the model computes a concrete
 session (p = 7, one element crossing the modulus, one zero). -/
 example : ∃ (labels : List (BitVec 128)) (xs ys : List Nat) (p : Nat),
@@ -115,6 +176,16 @@ example : ∃ (labels : List (BitVec 128)) (xs ys : List Nat) (p : Nat),
 
 example : (session (fun l => l.toNat) [5#128, 9#128] [3, 6] [4, 0] 7).toOption.map (fun s => (s.rs, s.us)) =
     some ([5, 2], [3, 2]) := by decide +kernel
+
+/-- A history: a 2-element call modulo 2^256-189-sized values followed by a
+shorter call modulo 3 with elements 0/1 (the shape on which a buffer reused
+between calls would leak bytes of the first call into the second). -/
+example : (runCalls (fun l => l.toNat) (fun i => BitVec.ofNat 128 (1000003 * (i + 1))) ⟨0⟩
+    [⟨[2 ^ 255 + 5, 7], [2 ^ 256 - 1, 2 ^ 200], 2 ^ 256 - 189⟩, ⟨[2], [1], 3⟩]).toOption.map
+      (fun r => (r.1.pos, r.2.map (fun s => (s.us.length, s.umsg.length)))) =
+    some (16, [(2, 64), (1, 32)]) := by decide +kernel
+
+example : (⟨[2], [1], 3⟩ : Call).Ok := ⟨by decide, by decide, rfl, by decide⟩
 
 /-! ### Fx, Fxk, ToOT / FromOT -/
 
@@ -146,6 +217,20 @@ zero otherwise (in particular for `b = 0`). -/
 theorem C20_fxk_shares (ot : OtFun (BitVec 128)) (h : OtSpec ot) (r s : BLabel) (b : Nat) :
     (fxk ot r s b).r ^^^ (fxk ot r s b).xb = if b = 1 then s else 0#32 :=
   fxk_general ot h r s b
+
+/-- Histories of gadget calls over ONE OT instance (as `bmr` runs them over a
+peer's `otSender` / `otReceiver`): every call of every history of in-domain
+calls returns XOR shares of its own product. -/
+theorem C20_fx_session (ot : OtFun (BitVec 128)) (h : OtSpec ot) (cs : List GCall)
+    (hd : ∀ c ∈ cs, c.Ok) : Forall2 GShares cs (runGadgets ot cs) := by
+  induction cs with
+  | nil => exact .nil
+  | cons c cs ih =>
+    refine .cons ?_ (ih fun d hd' => hd d (by simp [hd']))
+    have hc := hd c (by simp)
+    cases c with
+    | fx rl a b => exact C20_fx_shares ot h rl a b hc.1 hc.2
+    | fxk r s b => exact C20_fxk_shares ot h r s b
 
 /-- The OT specification is satisfiable (ideal OT), so the Fx theorems are not
 vacuous; concrete runs. -/
